@@ -559,7 +559,12 @@ func runC06(c *Ctx) error {
 				}
 			}
 			for k, n := 0, 3+c.Rng.IntN(5); k < n; k++ {
-				switch c.Rng.IntN(6) {
+				op := c.Rng.IntN(6)
+				if g.isolate && gi%2 == 0 && k < 3 {
+					// isolated router: a local packet, the peer's packet on the same connection, a local packet again
+					op = []int{3, 0, 3}[k]
+				}
+				switch op {
 				case 5:
 					// an authentic ping of another kind from the sender (a pong request): no effect on connection states
 					spec := pingSpec{from: S.id, dst: selfID.IP, msgType: frame.RouterPing, pingType: "pong", seqTime: nextCraftTime(), pingID: uint64(900 + k)}
@@ -624,9 +629,25 @@ func runC06(c *Ctx) error {
 						}
 					}
 					_ = R.ro.VerifHandleTunPacket(buf)
+					sentOut := false
+					for _, q := range w.queue {
+						if fi := parseFrameInfo(q.data); fi.ok && fi.src == selfID.IP && fi.dst == S.id.IP && frame.MessageType(fi.ty) == frame.NetworkTraffic {
+							sentOut = true
+						}
+					}
 					w.queue = nil
 					R.tunRaw()
 					c.Eval()
+					sIsFriend := false
+					for _, f := range g.friends {
+						if f.ip == S.id.IP {
+							sIsFriend = true
+						}
+					}
+					if sentOut && g.isolate && !sIsFriend {
+						c.Violate("an isolated router sent a local packet to a non-friend after a history of traffic on the same 5-tuple", "outbound-leak-history",
+							map[string]any{"cfg": g.coq(selfID.IP), "history": append(append([]string(nil), htrace...), "out")})
+					}
 					allowed := false
 					for _, cs := range R.ro.VerifConnStates() {
 						if cs.RemoteIP == S.id.IP && int(cs.Protocol) == proto && int(cs.LocalPort) == dport && int(cs.RemotePort) == sport {
